@@ -176,7 +176,40 @@ def confirm_de(v):
     return bad, 'in-memory object (order %s) emit -> parse: %s' % (v['orders'][0], (r.get('err') or r.get('panic') or 'object or re-emitted document differs') if bad else 'identical')
 
 
+def confirm_pipe(v):
+    """the real binary: the object of the counterexample is emitted natively, taken through
+    `zerv version --source stdin --output-format zerv` once (= what a direct run prints) and once more (= the piped run);
+    the two documents and the semver / pep440 renderings of both stages must coincide (dirty-state timestamp masked)"""
+    import ast, re, subprocess
+    req = dict(op='zerv_roundtrip', vars=v['vars'], order=v['order_a'])
+    try:
+        spec = ast.literal_eval(v.get('schema_spec') or 'None')
+        if spec and len(spec[2]) == 2 and spec[2][0] == ('var', 'BumpedBranch'):
+            req['build_kind'] = list(spec[2][1])
+    except Exception:
+        pass
+    r = native.driver().call(**req)
+    if not r.get('emitted'):
+        return False, 'object not emitted natively: %s' % r
+    zb = native.zerv_bin()
+    run = lambda doc, fmt: subprocess.run([zb, 'version', '--source', 'stdin', '--output-format', fmt], input=doc, capture_output=True, text=True, timeout=60)
+    mask = lambda t: re.sub(r'bumped_timestamp: Some\(\d+\)', 'bumped_timestamp: T', t)
+    s1 = run(r['emitted'], 'zerv')
+    if s1.returncode != 0:
+        return False, 'first stage refuses the document: %s' % s1.stderr.strip()[-200:]
+    s2 = run(s1.stdout, 'zerv')
+    bad = s2.returncode != 0 or mask(s1.stdout) != mask(s2.stdout)
+    why = 'second stage: %s' % (s2.stderr.strip()[-160:] if s2.returncode != 0 else ('documents differ' if bad else 'identical'))
+    for fmt in ('semver', 'pep440'):
+        a, b = run(r['emitted'], fmt), run(s1.stdout, fmt)
+        if (a.returncode, a.stdout) != (b.returncode, b.stdout) and 'dev' not in a.stdout:
+            bad, why = True, why + '; %s rendering %r directly vs %r piped' % (fmt, a.stdout.strip() or a.stderr.strip()[-80:], b.stdout.strip() or b.stderr.strip()[-80:])
+    return bad, 'zerv version --source stdin | zerv version --source stdin (order %s): %s' % (v['orders'][0], why)
+
+
 def confirm(v):
+    if v.get('clause') == 'pipe':
+        return confirm_pipe(v)
     if v.get('clause') == 'roundtrip_de':
         return confirm_de(v)
     if v.get('clause') == 'roundtrip_object':
@@ -203,9 +236,9 @@ def main():
     ck.bounds['serialisation'] = 'Zerv objects over one 3+5+3 schema (all component kinds; literal contents symbolic), every ZervVars field with symbolic presence and contents (numbers any u64, texts 1 char), %d pairs of precedence orders (default, adjacent swaps, reversed, prefix, empty)' % len(c12.ser_args(ck.tier))
     ck.bounds['deserialisation'] = 'emit -> parse -> emit of Zerv objects: %d configurations (every precedence order of the menu; 15 schemas incl. every component kind as last build component), every ZervVars field with symbolic presence and contents (numbers any u64, texts 2 chars over ASCII + class representatives, custom = {})' % len(c12.de_args(ck.tier))
     ck.outside = ['the text layer of ron (printer and parser): zerv\'s Serialize impls and its derived / hand-written Deserialize impls (visitors, field matchers, defaults, deserialize_with helpers) are executed from MIR against a recording serializer and a replaying deserializer that exchange the serde data-model tree; that ron prints and re-reads that tree faithfully is trusted and exercised natively on every run (document and in-memory object round trips)',
-                  'custom variables other than the empty object (serde_json::Value through ron\'s deserialize_any)',
+                  'custom variables other than the empty object (serde_json::Value through ron\'s deserialize_any)', 'pipe equivalence is decided in-process for default arguments (no overrides / bumps / templates on either stage) with both stages reading the same wall clock; clap and the process boundary are outside',
                   'malformed-document handling: serde / ron library code has no MIR in the crate and CBMC cannot get through its string handling (measured, DESIGN §2)',
-                  'pipe equivalence through the zerv binary', 'custom(...) components', 'longer schemas']
+                  'custom(...) components', 'longer schemas']
     ck.assumptions = ['python models of Vec/HashSet/IndexMap/iterator functions', 'oracle = placement rules transcribed from the statement as a z3 formula over the variable choices']
     ex = engine.explore('c12', 'path', args, jobs=ck.jobs, deadline=time.time() + (600 if quick else 3600))
     cands = ck.absorb('schema accepted <=> placement rules hold', ex, bounds=dict(configs=len(args)), expect_tags=['accepted', 'refused'])
@@ -229,6 +262,12 @@ def main():
     for v in dcands:
         v.setdefault('how', 'de')
     cands += dcands
+    ex = engine.explore('c12', 'path_pipe', dargs, jobs=ck.jobs, deadline=time.time() + (600 if quick else 1800))
+    pcands = ck.absorb('pipe equivalence in-process: ZervDraft::to_zerv (default arguments) -> Display/ron -> process_cached_stdin_source -> ZervDraft::to_zerv gives the identical object (shared clock)', ex,
+                       bounds=dict(configs=len(dargs)), expect_tags=['direct_ok', 'piped', 'identical'])
+    for v in pcands:
+        v.setdefault('how', 'pipe')
+    cands += pcands
     roundtrip_validation(ck)
     object_roundtrip_validation(ck)
     seen = set()
